@@ -28,36 +28,36 @@ LEDGER = {
                 mc=([M("ESDTNFTTransfer,create,flags", hs=("u0a", "u1a"), ptoks=("4e",), pshards=(0, 1), freeze=()),
                      M("ESDTTransfer,issue,MultiESDTNFTTransfer,flags", hs=("u0a", "u1a"), pshards=(1,)),
                      M("ESDTTransfer,issue,ESDTNFTTransfer,create")],
-                    [M("ESDTNFTTransfer,MultiESDTNFTTransfer,create,flags", hs=("u0a", "u1a"), ptoks=("4e",), pshards=(0, 1), freeze=()), M("ESDTTransfer,issue,MultiESDTNFTTransfer,flags", pshards=(0, 1)), M("ESDTTransfer,issue,ESDTNFTTransfer,MultiESDTNFTTransfer,create", msgs=2, accsample=3)]),
+                    [M("ESDTNFTTransfer,MultiESDTNFTTransfer,create,flags", hs=("u0a", "u1a"), ptoks=("4e",), pshards=(0, 1), freeze=()), M("ESDTTransfer,issue,MultiESDTNFTTransfer,flags", pshards=(0, 1)), M("ESDTTransfer,issue,ESDTNFTTransfer,MultiESDTNFTTransfer,create", msgs=2, accsample=2)]),
                 need=dict(tok_ok=20, deliver_ok=5, deliver_err=1, refund_ok=1, overdraft_rej=1, alias_rej=1)),
     "C02": dict(profile="supply", preds=["P02_Delta", "P02_Others", "P02_NoOverdraft", "NoNegative", "Conservation"],
                 mc=([M("mintburn,create,flags,issue", supply=3)],
-                    [M("mintburn,create,flags,issue,ESDTTransfer", supply=3, ctr=2, accsample=8), M("mintburn,create,roles,issue", supply=3, hs=("u0a", "u0b"))]),
+                    [M("mintburn,create,flags,issue,ESDTTransfer", supply=3, ctr=2, accsample=6), M("mintburn,create,roles,issue", supply=3, hs=("u0a", "u0b"))]),
                 need=dict(supply_ok=20, overdraft_rej=2, role_rej=2)),
     "C03": dict(profile="roles", preds=["P03_Authority", "P03_Grant", "P03_Denied", "P03_RoleOpsExact"],
                 mc=([M("mintburn,roles,acct"), M("create,handover,metaops"), M("create,metaops,nftroles", hs=("u0a",))],
-                    [M("mintburn,roles,acct", supply=3, accsample=2), M("create,handover,metaops,ESDTNFTTransfer", ctr=2, hs=("u0a", "u1a")), M("mintburn,create,handover,acct", hs=("u0a", "u1a"))]),
+                    [M("mintburn,roles,acct", supply=3, accsample=3), M("create,handover,metaops,ESDTNFTTransfer", ctr=2, hs=("u0a", "u1a"), accsample=2), M("mintburn,create,handover,acct", hs=("u0a", "u1a"))]),
                 need=dict(role_ok=10, role_rej=5, acct_ok=3, acct_rej=2, handover_ok=1, flag_ok=3)),
     "C04": dict(profile="freeze", preds=["P04_Immobile", "P04_NoCreditWhilePaused", "P04_FlagOnly", "P04_FlagTakesEffect", "P04_Restores"],
                 mc=([M("ESDTNFTTransfer,MultiESDTNFTTransfer,create,flags", hs=("u0a", "u1a"), ptoks=("4e",), pshards=(0, 1), freeze=(), rejected=False),
                      M("ESDTTransfer,MultiESDTNFTTransfer,flags,mintburn,issue", hs=("u0a", "u0b"), supply=3, rejsample=20)],
-                    [M("ESDTNFTTransfer,MultiESDTNFTTransfer,create,flags", ptoks=("4e",), pshards=(0, 1), freeze=(), accsample=3), M("ESDTTransfer,MultiESDTNFTTransfer,flags,mintburn,issue", freeze=("u0a", "u1a"), pshards=(0, 1), supply=3, accsample=6)]),
+                    [M("ESDTNFTTransfer,MultiESDTNFTTransfer,create,flags", ptoks=("4e",), pshards=(0, 1), freeze=(), accsample=2), M("ESDTTransfer,MultiESDTNFTTransfer,flags,mintburn,issue", freeze=("u0a", "u1a"), pshards=(0, 1), supply=3, accsample=5)]),
                 need=dict(frozen_rej=3, paused_rej=3, flag_ok=10, refund_ok=1)),
     "C05": dict(profile="kv", preds=["P05_Protected", "P05_KVExact", "P05_Frame"],
                 mc=([M("kv,ESDTTransfer,acct")],
-                    [M("kv,ESDTTransfer,acct"), M("kv,ESDTNFTTransfer,create,flags,handover", hs=("u0a", "u1a"), accsample=4)]),
+                    [M("kv,ESDTTransfer,acct"), M("kv,ESDTNFTTransfer,create,flags,handover", hs=("u0a", "u1a"), accsample=2)]),
                 need=dict(kv_ok=10, kv_prot_rej=5, tok_ok=5)),
     "C06": dict(profile="gas", flags=["-gassweep"], preds=["P06_NoGasCreated", "P06_Underfunded"],
                 mc=([M("ESDTTransfer,kv,create,ESDTNFTTransfer,MultiESDTNFTTransfer", gas=(0, 9, 10, 11, 60, 1000), hs=("u0a", "u1a"), rejected=False)],
-                    [M("ESDTTransfer,kv,create,ESDTNFTTransfer,MultiESDTNFTTransfer", gas=(0, 9, 10, 11, 60, 1000), hs=("u0a", "u1a"), rejected=False, accsample=3), M("metaops,mintburn,acct,create", gas=(0, 9, 10, 11, 20, 1000), hs=("u0a", "u1a"), rejected=False, accsample=5)]),
+                    [M("ESDTTransfer,kv,create,ESDTNFTTransfer,MultiESDTNFTTransfer", gas=(0, 9, 10, 11, 60, 1000), hs=("u0a", "u1a"), rejected=False), M("metaops,mintburn,acct,create", gas=(0, 9, 10, 11, 20, 1000), hs=("u0a", "u1a"), rejected=False, accsample=4)]),
                 need=dict(gas_max=20, gas_rej=20, priced=50)),
     "C07": dict(profile="nonce", preds=["P07_ReturnedNonce", "P07_Handover", "P07_CtrOnlyByCreate", "CounterWithRole"],
                 mc=([M("create,handover,ESDTNFTTransfer", ctr=2)],
-                    [M("create,handover,ESDTNFTTransfer", ctr=2, accsample=2), M("create,handover,ESDTNFTTransfer,MultiESDTNFTTransfer", ctr=2, hs=("u0a", "u1a"))]),
+                    [M("create,handover,ESDTNFTTransfer", ctr=2, accsample=2), M("create,handover,ESDTNFTTransfer,MultiESDTNFTTransfer", ctr=2, hs=("u0a", "u1a"), accsample=2)]),
                 need=dict(create_ok=15, handover_ok=2, handover_deliver=1)),
     "C08": dict(profile="meta", preds=["P08_Conf", "P08_Create", "P08_OnlyUriAttr", "P08_UriAttrExact", "P08_WrongHash"],
                 mc=([M("create,metaops,ESDTNFTTransfer")],
-                    [M("create,metaops,ESDTNFTTransfer,MultiESDTNFTTransfer", ctr=1, accsample=2), M("create,metaops,ESDTNFTTransfer", msgs=2, ctr=2, hs=("u0a", "u1a"), accsample=3)]),
+                    [M("create,metaops,ESDTNFTTransfer,MultiESDTNFTTransfer", ctr=1), M("create,metaops,ESDTNFTTransfer", msgs=2, ctr=2, hs=("u0a", "u1a"), accsample=2)]),
                 need=dict(create_ok=10, meta_fn_ok=2, tok_ok=15, deliver_ok=3)),
     "C09": dict(profile="payable", preds=["P09_Admissible", "P09_Rejected"],
                 mc=([M("ESDTTransfer,ESDTNFTTransfer,MultiESDTNFTTransfer,create,issue", hs=("u0a", "u1a", "c1a"))],
@@ -65,7 +65,7 @@ LEDGER = {
                 need=dict(payable_rej=3, tok_ok=20, nonpay_exempt=1)),
     "C10": dict(profile="transfer", preds=["P10_ParserEqualsLedger", "P10_RoundTrip", "P10_Accepted"],
                 mc=([M("ESDTTransfer,ESDTNFTTransfer,MultiESDTNFTTransfer,create,issue", hs=("u0a", "u1a", "c1a"))],
-                    [M("ESDTTransfer,ESDTNFTTransfer,MultiESDTNFTTransfer,create,issue", hs=("u0a", "u1a", "c1a")), M("ESDTTransfer,MultiESDTNFTTransfer,handover,acct,issue,create", hs=("u0a", "u1a"), accsample=12)]),
+                    [M("ESDTTransfer,ESDTNFTTransfer,MultiESDTNFTTransfer,create,issue", hs=("u0a", "u1a", "c1a")), M("ESDTTransfer,MultiESDTNFTTransfer,handover,acct,issue,create", hs=("u0a", "u1a"), accsample=8)]),
                 need=dict(out_msgs=10, parsed=30, deliver_ok=5)),
     "C11": dict(profile="mixed", flags=["-alloc", "-adversarial", "75"], preds=["P11_Shape", "P11_ShapeVerdict", "P11_Alloc"],
                 mc=([M("ESDTTransfer,ESDTNFTTransfer,MultiESDTNFTTransfer,create", rejected=True, hs=("u0a", "u1a")), M("mintburn,metaops,create", rejected=True, hs=("u0a",)), M("kv,flags", rejected=True, hs=("u0a",)), M("acct,handover", rejected=True, hs=("u0a", "u1a"))],
@@ -77,12 +77,12 @@ LEDGER = {
                 need=dict(replicas=500, tok_ok=10), scale=0.5),
     "C15": dict(profile="mixed", preds=["WellFormed", "SysClean", "NoNegative"],
                 mc=([M("ESDTTransfer,ESDTNFTTransfer,create,handover"), M("ESDTTransfer,flags,mintburn,issue", supply=3)],
-                    [M("ESDTTransfer,ESDTNFTTransfer,create,handover"), M("ESDTTransfer,flags,mintburn,issue,roles", supply=3, accsample=8), M("ESDTTransfer,issue,ESDTNFTTransfer,MultiESDTNFTTransfer,mintburn,create,handover", hs=("u0a", "u1a"), accsample=3)]),
+                    [M("ESDTTransfer,ESDTNFTTransfer,create,handover"), M("ESDTTransfer,flags,mintburn,issue,roles", supply=3, accsample=6), M("ESDTTransfer,issue,ESDTNFTTransfer,MultiESDTNFTTransfer,mintburn,create,handover", hs=("u0a", "u1a"))]),
                 extra_runs=[("nonce", [], 0.5), ("transfer", [], 0.5)],
                 need=dict(tok_ok=10, supply_ok=10, flag_ok=5, create_ok=5)),
     "C16": dict(profile="gas", flags=["-gassweep"], preds=["P16_Price", "P16_ProbePrice", "P16_Charged"],
                 mc=([M("sched,ESDTTransfer,kv,create,ESDTNFTTransfer,MultiESDTNFTTransfer", gas=(60, 1000), hs=("u0a", "u1a"), rejected=False, accsample=4)],
-                    [M("sched,ESDTTransfer,kv,create,ESDTNFTTransfer,MultiESDTNFTTransfer", gas=(60, 1000), hs=("u0a", "u1a"), rejected=False, accsample=6), M("sched,metaops,mintburn,acct,create", gas=(60, 1000), hs=("u0a", "u1a"), rejected=False, accsample=8)]),
+                    [M("sched,ESDTTransfer,kv,create,ESDTNFTTransfer,MultiESDTNFTTransfer", gas=(60, 1000), hs=("u0a", "u1a"), rejected=False, accsample=2), M("sched,metaops,mintburn,acct,create", gas=(60, 1000), hs=("u0a", "u1a"), rejected=False, accsample=4)]),
                 need=dict(sched_ok=3, sched_rej=2, priced=80, probe=100)),
     "C17": dict(profile="mixed", flags=["-faults"], preds=["P17_FaultIsError", "P17_NoPanic"],
                 mc=([M("ESDTTransfer,issue,ESDTNFTTransfer,create")], [M("ESDTTransfer,issue,ESDTNFTTransfer,MultiESDTNFTTransfer,create,mintburn")]),
@@ -187,7 +187,7 @@ def model_and_emit(run, mc, label):
     kw.setdefault("rejected", not (run.tier == "quick" and len(kw.get("hs", ("a", "b", "c"))) > 2))
     if len(kw.get("gas", (1000,))) > 2 and run.tier == "quick":
         kw["gas"] = (kw["gas"][1], kw["gas"][-1])       # quick: the two most interesting gas points (just below a charge, ample)
-    kw.setdefault("rejsample", 12 if run.tier == "quick" else 8)
+    kw.setdefault("rejsample", 12 if run.tier == "quick" else 60)
     kw.setdefault("accsample", mc.get("accsample", 1))
     ok, o, info = run.model_check("EsdtMC", mc_cfg(mc["fns"], mc["msgs"], mc["supply"], mc["ctr"], **kw), name="EsdtMC-%s-%s" % (run.pid, label),
                                   timeout=1200 if run.tier == "quick" else 7200)
@@ -198,6 +198,8 @@ def model_and_emit(run, mc, label):
         for line in f:
             if not line.startswith('<<"TRANS", "'):
                 continue
+            if n >= 300000:
+                break     # enough for one configuration (sampling rates are set so that this is rarely reached)
             body = line.rstrip()[len('<<"TRANS", "'):-len('">>')]
             t = json.loads(body.replace('\\"', '"').replace("\\\\", "\\"))
             t["w"] = fix_tlc_world(t["w"])
